@@ -175,6 +175,11 @@ class Marshal:
         cpp = ref_inst.cpp_typename(t.bare())
         if cpp in self.x.enums:
             return 'enum', cpp
+        if not t.args:
+            # a name spelled relative to an enclosing namespace (enum names of the coherent universe are unique)
+            rel = [k for k in self.x.enums if k.endswith('::' + cpp)]
+            if len(rel) == 1:
+                return 'enum', rel[0]
         if cpp in self.classes:
             return 'class', cpp
         return 'unknown', cpp
